@@ -406,8 +406,16 @@ impl SimTerm {
                     }
                 }
                 s.grid.feed(&bytes);
-                if let Some(vt) = s.vt.as_mut() {
-                    vt.process(bytes.as_bytes());
+                if let Some(mut vt) = s.vt.take() {
+                    // the vt100 crate is only a cross-check of our own grid: if it panics
+                    // (tiny screens), drop it for the rest of the run
+                    let b = bytes.clone();
+                    if let Ok(vt) = std::panic::catch_unwind(std::panic::AssertUnwindSafe(move || {
+                        vt.process(b.as_bytes());
+                        vt
+                    })) {
+                        s.vt = Some(vt);
+                    }
                 }
                 if kind == CallKind::Flush {
                     s.flushes += 1;
